@@ -179,16 +179,32 @@ func argSource(kind string, pos int) string {
 
 // env is the fresh world of one render: context data, recorders.
 type env struct {
-	c        Case
-	ptr      *T
-	ints     []int
-	hmap     hctx.Map
-	sentinel error
-	evals    []int                  // argument positions in the order their wrappers ran
-	seen     [maxArgs][]interface{} // what each wrapper received
-	calls    []invocation           // invocations of the function under test
-	harness  interface{}            // a panic inside the recorder itself
-	data     map[string]interface{}
+	sigs      []Sig // the recording target functions (one for a plain case, 2-3 for a sequence case)
+	ptr       *T
+	ints      []int
+	hmap      hctx.Map
+	sentinel  error                  // == sentinels[0]
+	sentinels []error                // one per target
+	evals     []int                  // argument positions in the order their wrappers ran
+	seen      [maxArgs][]interface{} // what each wrapper received
+	calls     []invocation           // invocations of the functions under test
+	log       []event                // wrapper evaluations and invocations in the order they happened
+	harness   interface{}            // a panic inside the recorder itself
+	data      map[string]interface{}
+}
+
+// event is one entry of the chronological log: an argument wrapper ran (call < 0) or a target was invoked.
+type event struct {
+	pos  int         // wrapper: argument position
+	v    interface{} // wrapper: value received
+	call int         // index into env.calls, -1 for a wrapper event
+}
+
+func (ev event) String() string {
+	if ev.call < 0 {
+		return fmt.Sprintf("w%d", ev.pos)
+	}
+	return fmt.Sprintf("call#%d", ev.call)
 }
 
 type got struct {
@@ -200,6 +216,7 @@ type got struct {
 }
 
 type invocation struct {
+	tgt      int // which target function
 	fixed    []got
 	variadic []got
 }
@@ -246,8 +263,14 @@ func (e *env) argValue(kind string, pos int) interface{} {
 	panic("harness: unknown argument kind " + kind)
 }
 
-func newEnv(c Case) *env {
-	e := &env{c: c, ptr: &T{N: 3}, ints: []int{4, 5}, hmap: hctx.Map{"k": 1}, sentinel: &sentinelErr{id: 1}}
+func newEnv(c Case) *env { return newEnvSigs([]Sig{c.Sig}) }
+
+func newEnvSigs(sigs []Sig) *env {
+	e := &env{sigs: sigs, ptr: &T{N: 3}, ints: []int{4, 5}, hmap: hctx.Map{"k": 1}}
+	for j := range sigs {
+		e.sentinels = append(e.sentinels, &sentinelErr{id: j})
+	}
+	e.sentinel = e.sentinels[0]
 	d := map[string]interface{}{"cvBlk": "7"}
 	for _, k := range argKinds {
 		if strings.HasPrefix(k, "cv") {
@@ -259,10 +282,25 @@ func newEnv(c Case) *env {
 		d[fmt.Sprintf("w%d", i)] = func(v interface{}) interface{} {
 			e.evals = append(e.evals, i)
 			e.seen[i] = append(e.seen[i], v)
+			e.log = append(e.log, event{pos: i, v: v, call: -1})
 			return v
 		}
 	}
-	d[fname] = e.target()
+	if len(sigs) == 1 {
+		d[fname] = e.target(0)
+	} else {
+		// sequence cases: the one call site resolves to a different function at every execution
+		var fns []interface{}
+		var idx []int
+		for j := range sigs {
+			f := e.target(j)
+			fns = append(fns, f)
+			idx = append(idx, j)
+			d[fmt.Sprintf("fn%d", j)] = f
+		}
+		d["fns"] = fns
+		d["idx"] = idx
+	}
 	e.data = d
 	return e
 }
@@ -297,8 +335,8 @@ func (e *env) observe(v reflect.Value, role string) got {
 }
 
 // target builds the recording function of the case's signature.
-func (e *env) target() interface{} {
-	s := e.c.Sig
+func (e *env) target(tgt int) interface{} {
+	s := e.sigs[tgt]
 	ft := s.funcType()
 	_, roles := s.params()
 	fn := reflect.MakeFunc(ft, func(in []reflect.Value) (out []reflect.Value) {
@@ -308,7 +346,7 @@ func (e *env) target() interface{} {
 				panic(p)
 			}
 		}()
-		var inv invocation
+		inv := invocation{tgt: tgt}
 		for i, v := range in {
 			if s.Var != "" && i == len(in)-1 {
 				for j := 0; j < v.Len(); j++ {
@@ -319,15 +357,16 @@ func (e *env) target() interface{} {
 			inv.fixed = append(inv.fixed, e.observe(v, roles[i]))
 		}
 		e.calls = append(e.calls, inv)
+		e.log = append(e.log, event{call: len(e.calls) - 1})
 		if strings.Contains(s.Res, "T") {
 			switch s.RT {
 			case "string":
-				out = append(out, reflect.ValueOf("Rs"))
+				out = append(out, reflect.ValueOf(s.resultTextOf(tgt)))
 			case "int":
-				out = append(out, reflect.ValueOf(4242))
+				out = append(out, reflect.ValueOf(4242+tgt))
 			default:
 				rv := reflect.New(tAny).Elem()
-				rv.Set(reflect.ValueOf("Ra"))
+				rv.Set(reflect.ValueOf(s.resultTextOf(tgt)))
 				out = append(out, rv)
 			}
 		}
@@ -335,7 +374,7 @@ func (e *env) target() interface{} {
 			out = append(out, reflect.Zero(tErr))
 		} else if strings.Contains(s.Res, "err") {
 			ev := reflect.New(tErr).Elem()
-			ev.Set(reflect.ValueOf(e.sentinel))
+			ev.Set(reflect.ValueOf(e.sentinels[tgt]))
 			out = append(out, ev)
 		}
 		return out
@@ -343,17 +382,25 @@ func (e *env) target() interface{} {
 	return fn.Interface()
 }
 
-func (s Sig) resultText() string {
+func (s Sig) resultText() string { return s.resultTextOf(0) }
+
+// resultTextOf is what target number tgt returns as its first result (distinct per target, so that the output
+// shows which function produced which part).
+func (s Sig) resultTextOf(tgt int) string {
 	if !strings.Contains(s.Res, "T") {
 		return ""
 	}
+	suffix := ""
+	if tgt > 0 {
+		suffix = fmt.Sprint(tgt)
+	}
 	switch s.RT {
 	case "string":
-		return "Rs"
+		return "Rs" + suffix
 	case "int":
-		return "4242"
+		return fmt.Sprint(4242 + tgt)
 	}
-	return "Ra"
+	return "Ra" + suffix
 }
 
 // ---- the case ----------------------------------------------------------------------
@@ -756,6 +803,393 @@ func checkCase(r *vk.Run, c Case) *vk.Fail {
 	return nil
 }
 
+// ---- one call site, several functions ------------------------------------------------------
+
+// SeqCase executes ONE call site tgtFn(ARGS) several times within a single render, the callee resolving to a
+// different recording function at each execution. The reference binder is applied to every execution on its own.
+type SeqCase struct {
+	Sigs  []Sig    `json:"sigs"` // 2-3 targets, in execution order
+	Args  []string `json:"args"`
+	Wrap  uint     `json:"wrap"`
+	Block bool     `json:"block"` // not in mode "ufn"
+	Mode  string   `json:"mode"`  // loop: for (tgtFn) in fns | let: for (i) in idx { let tgtFn = fns[i] } | ufn: user function called after rebinding tgtFn
+}
+
+var seqModes = []string{"loop", "let", "ufn"}
+
+func (sc SeqCase) one(j int) Case {
+	return Case{Sig: sc.Sigs[j], Args: sc.Args, Wrap: sc.Wrap, Block: sc.Block}
+}
+
+func (sc SeqCase) validate() string {
+	if len(sc.Sigs) < 2 || len(sc.Sigs) > 4 {
+		return "a sequence case needs 2-4 signatures"
+	}
+	for j := range sc.Sigs {
+		if m := sc.one(j).validate(); m != "" {
+			return m
+		}
+	}
+	switch sc.Mode {
+	case "loop", "let":
+	case "ufn":
+		if sc.Block {
+			return "mode ufn has no block"
+		}
+	default:
+		return "unknown mode"
+	}
+	return ""
+}
+
+func (sc SeqCase) Template() string {
+	full := sc.one(0).Template() // "[<%= tgtFn(ARGS) ... %>]"
+	switch sc.Mode {
+	case "loop":
+		return "<%= for (" + fname + ") in fns { %>" + full + "<% } %>"
+	case "let":
+		return "<%= for (i) in idx { %><% let " + fname + " = fns[i] %>" + full + "<% } %>"
+	}
+	call := strings.TrimSuffix(strings.TrimPrefix(full, "[<%= "), " %>]")
+	var b strings.Builder
+	b.WriteString("<% let " + fname + " = fn0 %><% let run = fn() { return " + call + " } %>[<%= run() %>]")
+	for j := 1; j < len(sc.Sigs); j++ {
+		fmt.Fprintf(&b, "<%% %s = fn%d %%>[<%%= run() %%>]", fname, j)
+	}
+	return b.String()
+}
+
+func (sc SeqCase) Key() string {
+	var ss []string
+	for _, s := range sc.Sigs {
+		ss = append(ss, s.String())
+	}
+	return strings.Join(ss, " ; ") + " | " + sc.Template()
+}
+
+func checkSeq(r *vk.Run, sc SeqCase) *vk.Fail {
+	if m := sc.validate(); m != "" {
+		return &vk.Fail{Kind: "decode", Msg: m}
+	}
+	defer r.Watch("seq", sc)()
+	e := newEnvSigs(sc.Sigs)
+	src := sc.Template()
+	res := vk.Safe(func() (string, error) { return plush.Render(src, plush.NewContextWith(e.data)) })
+	if e.harness != nil {
+		panic(fmt.Sprintf("harness defect: the recorder panicked: %v (case %s)", e.harness, sc.Key()))
+	}
+	var outcomes []string
+	cls := func() string { return "seq/" + sc.Mode + "/" + strings.Join(outcomes, ",") }
+	differ := false
+	for j := 1; j < len(sc.Sigs); j++ {
+		differ = differ || sc.Sigs[j].funcType() != sc.Sigs[0].funcType()
+	}
+	count := func() {
+		nt := ""
+		if differ {
+			nt = sc.Key()
+		}
+		r.Count(nt, cls())
+	}
+	var wantOut strings.Builder
+	outKnown := true
+	pos := 0
+	for j := range sc.Sigs {
+		c := sc.one(j)
+		x := bind(c, e)
+		fail := func(f string, a ...interface{}) *vk.Fail {
+			return &vk.Fail{Kind: "seq", Class: cls(), Case: sc,
+				Msg: fmt.Sprintf("%s: execution %d of the call site resolves to %s: expected %s; %s; events %v; render gave %s", src, j, c.Sig, x.describe(c), fmt.Sprintf(f, a...), e.log, res)}
+		}
+		switch {
+		case x.unspecified != "":
+			// the statement does not say whether this execution fails or calls: nothing after it can be judged
+			outcomes = append(outcomes, "unspecified")
+			r.Exclude("unspecified")
+			count()
+			return nil
+		case x.errClass != "":
+			outcomes = append(outcomes, "error")
+			count()
+			last := -1
+			for ; pos < len(e.log); pos++ {
+				ev := e.log[pos]
+				if ev.call >= 0 {
+					return fail("a function was invoked (target %d)", e.calls[ev.call].tgt)
+				}
+				if ev.pos <= last {
+					return fail("arguments evaluated more than once or out of order after the failing execution started")
+				}
+				last = ev.pos
+			}
+			switch {
+			case res.Panicked():
+				return fail("the render panicked")
+			case res.Err == nil:
+				return fail("the render succeeded")
+			case !strings.Contains(res.Err.Error(), fname):
+				return fail("the error does not name the call")
+			}
+			return nil
+		}
+		outcomes = append(outcomes, "invoke")
+		for i := range c.Args {
+			if !c.wrapped(i) {
+				continue
+			}
+			if pos >= len(e.log) || e.log[pos].call >= 0 || e.log[pos].pos != i {
+				count()
+				return fail("argument %d must be evaluated next (event %d)", i, pos)
+			}
+			v := e.argValue(c.Args[i], i)
+			seen := e.log[pos].v
+			if v == nil {
+				if seen != nil {
+					count()
+					return fail("identity helper w%d received %#v for nil", i, seen)
+				}
+			} else if m := sameValue(v, seen, tAny, strings.HasPrefix(c.Args[i], "cv")); m != "" {
+				count()
+				return fail("identity helper w%d: %s", i, m)
+			}
+			pos++
+		}
+		if pos >= len(e.log) || e.log[pos].call < 0 || e.calls[e.log[pos].call].tgt != j {
+			count()
+			return fail("function %d must be invoked next (event %d)", j, pos)
+		}
+		inv := e.calls[e.log[pos].call]
+		pos++
+		types, _ := c.Sig.params()
+		if len(inv.fixed) != len(x.fixed) {
+			panic("harness: fixed parameter count mismatch")
+		}
+		for i, w := range x.fixed {
+			if m := x.compareSlot(c, w, inv.fixed[i], types[i], fmt.Sprintf("parameter %d", i)); m != "" {
+				count()
+				return fail("%s", m)
+			}
+		}
+		if len(inv.variadic) != len(x.variadic) {
+			count()
+			return fail("the variadic parameter received %d values, %d were supplied", len(inv.variadic), len(x.variadic))
+		}
+		for k, w := range x.variadic {
+			if m := x.compareSlot(c, w, inv.variadic[k], varElemTypes[c.Sig.Var], fmt.Sprintf("variadic element %d", k)); m != "" {
+				count()
+				return fail("%s", m)
+			}
+		}
+		if strings.Contains(c.Sig.Res, "err") {
+			outcomes[len(outcomes)-1] = "invoke+error-result"
+			count()
+			switch {
+			case pos != len(e.log):
+				return fail("the function returned a non-nil error, nothing may be evaluated after it")
+			case res.Panicked():
+				return fail("the render panicked")
+			case res.Err == nil:
+				return fail("the function returned a non-nil error, the render must fail")
+			case !errors.Is(res.Err, e.sentinels[j]):
+				return fail("the render error does not wrap the function's error")
+			}
+			return nil
+		}
+		if strings.Contains(c.Sig.Res, "T") {
+			wantOut.WriteString("[" + c.Sig.resultTextOf(j) + "]")
+		} else {
+			outKnown = false
+		}
+	}
+	count()
+	r.Sample(func() interface{} {
+		return map[string]interface{}{"signatures": sc.Key(), "template": src, "outcomes": cls(), "got": res.String(), "events": fmt.Sprint(e.log)}
+	})
+	fail := func(f string, a ...interface{}) *vk.Fail {
+		return &vk.Fail{Kind: "seq", Class: cls(), Case: sc,
+			Msg: fmt.Sprintf("%s: every execution must invoke its function; %s; events %v; render gave %s", src, fmt.Sprintf(f, a...), e.log, res)}
+	}
+	switch {
+	case pos != len(e.log):
+		return fail("%d events after the last expected one", len(e.log)-pos)
+	case res.Panicked():
+		return fail("the render panicked")
+	case res.Err != nil:
+		return fail("unexpected render error")
+	case outKnown && res.Out != wantOut.String():
+		return fail("output must be %q", wantOut.String())
+	}
+	return nil
+}
+
+// seqSigs: the signatures paired exhaustively (<= maxFixed fixed parameters of the given types x 12 tails).
+func seqSigs(fixed []string) []Sig {
+	lists := [][]string{nil}
+	for _, f := range fixed {
+		lists = append(lists, []string{f})
+	}
+	var out []Sig
+	for _, l := range lists {
+		for _, tl := range tails {
+			out = append(out, Sig{Fixed: l, Map: tl.m, HC: tl.h, Var: tl.v, Res: "(T)", RT: "string"})
+		}
+	}
+	return out
+}
+
+// seqProduct: all ordered pairs of seqSigs x all argument lists of length <= maxN over kinds; mode and block by index.
+type seqProduct struct {
+	sigs   []Sig
+	kinds  []string
+	maxN   int
+	calls  int64
+	blocks int64 // 1: block alternates with the index, 2: both
+}
+
+func newSeqProduct(fixed, kinds []string, maxN int, blocks int64) *seqProduct {
+	p := &seqProduct{sigs: seqSigs(fixed), kinds: kinds, maxN: maxN, blocks: blocks}
+	pow := int64(1)
+	for n := 0; n <= maxN; n++ {
+		p.calls += pow
+		pow *= int64(len(kinds))
+	}
+	return p
+}
+
+func (p *seqProduct) size() int64 {
+	return int64(len(p.sigs)) * int64(len(p.sigs)) * p.calls * p.blocks
+}
+
+func (p *seqProduct) at(i int64) SeqCase {
+	orig := i
+	blk := i%2 == 1
+	if p.blocks == 2 {
+		i /= 2
+	}
+	ci := i % p.calls
+	i /= p.calls
+	a, b := i%int64(len(p.sigs)), i/int64(len(p.sigs))
+	n := 0
+	pow := int64(1)
+	for ci >= pow {
+		ci -= pow
+		pow *= int64(len(p.kinds))
+		n++
+	}
+	args := make([]string, n)
+	for j := 0; j < n; j++ {
+		args[j] = p.kinds[ci%int64(len(p.kinds))]
+		ci /= int64(len(p.kinds))
+	}
+	sc := SeqCase{Sigs: []Sig{p.sigs[a], p.sigs[b]}, Args: args, Wrap: allWrapped(n), Block: blk, Mode: seqModes[(orig/2)%3]}
+	if (orig/6)%3 == 0 {
+		sc.Wrap = 0
+	}
+	if sc.Mode == "ufn" {
+		sc.Block = false
+	}
+	return sc
+}
+
+// seqArity: ordered pairs of signatures with all result shapes, arguments well typed for one of the two.
+func seqArity(maxFixed int) []SeqCase {
+	var sigs []Sig
+	res := []resT{{"(T)", "string"}, {"(T,err)", "int"}, {"(err)", ""}, {"()", ""}}
+	for k := 0; k <= maxFixed; k++ {
+		var fixed []string
+		for j := 0; j < k; j++ {
+			fixed = append(fixed, fixedNames[(1+3*j+k)%len(fixedNames)])
+		}
+		for _, tl := range tails {
+			for _, rs := range res {
+				sigs = append(sigs, Sig{Fixed: fixed, Map: tl.m, HC: tl.h, Var: tl.v, Res: rs.res, RT: rs.rt})
+			}
+		}
+	}
+	var out []SeqCase
+	n := 0
+	for _, a := range sigs {
+		for _, b := range sigs {
+			for _, which := range []Sig{a, b} {
+				types, _ := which.params()
+				lo, hi := len(which.Fixed), len(types)
+				if which.Var != "" {
+					hi = lo + 2
+				}
+				for cnt := lo; cnt <= hi; cnt++ {
+					var args []string
+					for i := 0; i < cnt; i++ {
+						cs := canon[which.paramNameAt(i)]
+						args = append(args, cs[(i+n)%len(cs)])
+					}
+					sc := SeqCase{Sigs: []Sig{a, b}, Args: args, Wrap: allWrapped(cnt), Block: n%2 == 0, Mode: seqModes[n%3]}
+					if n%5 == 0 {
+						sc.Wrap = 0
+					}
+					if sc.Mode == "ufn" {
+						sc.Block = false
+					}
+					out = append(out, sc)
+					n++
+				}
+			}
+		}
+	}
+	return out
+}
+
+func genSig(t *rapid.T) Sig {
+	var s Sig
+	k := rapid.IntRange(0, 3).Draw(t, "k")
+	for i := 0; i < k; i++ {
+		s.Fixed = append(s.Fixed, rapid.SampledFrom(fixedNames).Draw(t, "fixed"))
+	}
+	tl := rapid.SampledFrom(tails).Draw(t, "tail")
+	s.Map, s.HC, s.Var = tl.m, tl.h, tl.v
+	rs := rapid.SampledFrom(allRes).Draw(t, "res")
+	s.Res, s.RT = rs.res, rs.rt
+	return s
+}
+
+func genSeq(t *rapid.T, fit map[string][]string) SeqCase {
+	sc := SeqCase{Mode: rapid.SampledFrom(seqModes).Draw(t, "mode")}
+	ns := rapid.IntRange(2, 3).Draw(t, "nsigs")
+	for j := 0; j < ns; j++ {
+		s := genSig(t)
+		if j > 0 && rapid.IntRange(0, 2).Draw(t, "related") == 0 {
+			// a close relative of the first: same fixed parameters, another tail (this is where a stale signature hurts silently)
+			s.Fixed = append([]string{}, sc.Sigs[0].Fixed...)
+		}
+		if j < ns-1 && rapid.IntRange(0, 3).Draw(t, "keep-going") != 0 && strings.Contains(s.Res, "err") {
+			s.Res = strings.Replace(s.Res, "err", "nil", 1)
+		}
+		sc.Sigs = append(sc.Sigs, s)
+	}
+	lead := sc.Sigs[rapid.IntRange(0, ns-1).Draw(t, "lead")] // arguments are drawn to fit this one
+	types, _ := lead.params()
+	lo, hi := len(lead.Fixed), len(types)
+	if lead.Var != "" {
+		hi = lo + 3
+	}
+	if hi > maxArgs {
+		hi = maxArgs
+	}
+	n := rapid.IntRange(lo, hi).Draw(t, "n")
+	for i := 0; i < n; i++ {
+		name := lead.paramNameAt(i)
+		if name != "" && rapid.IntRange(0, 5).Draw(t, "fitting") != 0 {
+			sc.Args = append(sc.Args, rapid.SampledFrom(fit[name]).Draw(t, "arg"))
+		} else {
+			sc.Args = append(sc.Args, rapid.SampledFrom(argKinds).Draw(t, "arg"))
+		}
+	}
+	sc.Wrap = uint(rapid.IntRange(0, int(allWrapped(n))).Draw(t, "wrap"))
+	if sc.Mode != "ufn" {
+		sc.Block = rapid.Bool().Draw(t, "block")
+	}
+	return sc
+}
+
 // ---- generators -----------------------------------------------------------------------
 
 // fitting[typeKey] lists the argument kinds acceptable for a parameter type (by the reference rule).
@@ -912,6 +1346,7 @@ type product struct {
 	kinds []string
 	maxN  int
 	calls int64 // number of argument lists of length 0..maxN
+	both  bool  // with and without block for every cell (otherwise the block alternates with the index)
 }
 
 func newProduct(maxFixed, maxN int) *product {
@@ -942,11 +1377,18 @@ func newProduct(maxFixed, maxN int) *product {
 	return p
 }
 
-func (p *product) size() int64 { return int64(len(p.sigs)) * p.calls * 2 }
+func (p *product) size() int64 {
+	if p.both {
+		return int64(len(p.sigs)) * p.calls * 2
+	}
+	return int64(len(p.sigs)) * p.calls
+}
 
 func (p *product) at(i int64) Case {
 	blk := i%2 == 1
-	i /= 2
+	if p.both {
+		i /= 2
+	}
 	ci := i % p.calls
 	si := i / p.calls
 	n := 0
@@ -969,15 +1411,8 @@ func (p *product) at(i int64) Case {
 }
 
 func genCase(t *rapid.T, fit map[string][]string) Case {
-	var s Sig
-	k := rapid.IntRange(0, 3).Draw(t, "k")
-	for i := 0; i < k; i++ {
-		s.Fixed = append(s.Fixed, rapid.SampledFrom(fixedNames).Draw(t, "fixed"))
-	}
-	tl := rapid.SampledFrom(tails).Draw(t, "tail")
-	s.Map, s.HC, s.Var = tl.m, tl.h, tl.v
-	rs := rapid.SampledFrom(allRes).Draw(t, "res")
-	s.Res, s.RT = rs.res, rs.rt
+	s := genSig(t)
+	k := len(s.Fixed)
 	types, _ := s.params()
 	lo, hi := k, len(types)
 	if s.Var != "" {
@@ -1005,7 +1440,7 @@ func genCase(t *rapid.T, fit map[string][]string) Case {
 
 // ---- the test ---------------------------------------------------------------------------
 
-const rule = "Signatures: 0-3 fixed parameters from {string,int,float64,bool,interface{},*T,[]int}, then optionally a trailing options map (map[string]interface{} | hctx.Map) and/or a helper context (plush.HelperContext struct | hctx.HelperContext interface), or a variadic tail (...int|...string|...interface{}); results (), (T), (T,error) and (error) with nil and non-nil error, T in {string,int,interface{}}. The function is built with reflect.MakeFunc and records every invocation (received values, HasBlock(), Block()). Calls: 0-6 arguments from {string, int, float, true, false, nil, hash literal, array literal, context variables: string, int, float64, bool, *T, typed nil *T, []int, int8, named string, hctx.Map}, literal values depend on the position; each argument optionally wrapped in an order-recording identity helper; with and without a block. (E1) every parameter slot type (fixed at positions 0-2, options map, helper context, variadic element 0-2) x every argument kind x block x wrapped/unwrapped; (E2) arity matrix: 0-3 fixed x 12 tails x 12 result shapes x 0..N+1 well-typed arguments x block x wrapped/unwrapped, parameter types rotated; (E3) full product of all signatures with <= K fixed parameters x 12 tails with all calls of <= n arguments of 18 kinds x block; (R) random signature x call, arguments biased to fit. Oracle = reference binder from the statement: invoked exactly once with exactly the supplied values in order (nil => zero value, omitted trailing map => empty map, omitted helper context => HasBlock()==block given and Block() renders the block, variadic gets the rest), or not invoked and an error containing the function name (too many arguments / not assignable); first result emitted; non-nil error => errors.Is. Arguments evaluated at most once, left to right, on every path; exactly once on success. Unspecified (not asserted beyond evaluation order): fewer arguments than fixed parameters. Non-trivial = specified and (at least one argument or an auto-supplied parameter). Distinct by signature + template."
+const rule = "Signatures: 0-3 fixed parameters from {string,int,float64,bool,interface{},*T,[]int}, then optionally a trailing options map (map[string]interface{} | hctx.Map) and/or a helper context (plush.HelperContext struct | hctx.HelperContext interface), or a variadic tail (...int|...string|...interface{}); results (), (T), (T,error) and (error) with nil and non-nil error, T in {string,int,interface{}}. The function is built with reflect.MakeFunc and records every invocation (received values, HasBlock(), Block()). Calls: 0-6 arguments from {string, int, float, true, false, nil, hash literal, array literal, context variables: string, int, float64, bool, *T, typed nil *T, []int, int8, named string, hctx.Map}, literal values depend on the position; each argument optionally wrapped in an order-recording identity helper; with and without a block. (E1) every parameter slot type (fixed at positions 0-2, options map, helper context, variadic element 0-2) x every argument kind x block x wrapped/unwrapped; (E2) arity matrix: 0-3 fixed x 12 tails x 12 result shapes x 0..N+1 well-typed arguments x block x wrapped/unwrapped, parameter types rotated; (E3) full product of all signatures with <= K fixed parameters x 12 tails with all calls of <= n arguments of 18 kinds x block; (R) random signature x call, arguments biased to fit. Oracle = reference binder from the statement: invoked exactly once with exactly the supplied values in order (nil => zero value, omitted trailing map => empty map, omitted helper context => HasBlock()==block given and Block() renders the block, variadic gets the rest), or not invoked and an error containing the function name (too many arguments / not assignable); first result emitted; non-nil error => errors.Is. Arguments evaluated at most once, left to right, on every path; exactly once on success. Unspecified (not asserted beyond evaluation order): fewer arguments than fixed parameters. Non-trivial = specified and (at least one argument or an auto-supplied parameter). Distinct by signature + template. SEQUENCES: one call site tgtFn(ARGS) is executed 2-3 times within one render, the callee resolving to a recording function of a different signature each time (loop: for (tgtFn) in fns; let: for (i) in idx { let tgtFn = fns[i] }; ufn: the site sits in a template-defined function called again after tgtFn is reassigned). The reference binder is applied to every execution independently against the chronological log of wrapper evaluations and invocations: everything up to the first execution that must fail (or returns a non-nil error) must have happened exactly, nothing after it; a sequence stops being judged at the first unspecified execution. (S1) all ordered pairs of signatures (<= 1 fixed parameter x 12 tails) x all calls of <= 2 arguments of a reduced kind set; (S2) ordered pairs over 0-K fixed x 12 tails x 4 result shapes with arguments well typed for either member; (SR) random 2-3 signatures. Sequence cases are non-trivial when the function types differ."
 
 func setup(t *testing.T) *vk.Run {
 	r := vk.Start(t, "C12", rule,
@@ -1018,6 +1453,13 @@ func setup(t *testing.T) *vk.Run {
 			return f
 		}
 		return checkCase(r, c)
+	})
+	r.Replayer("seq", func(raw json.RawMessage) *vk.Fail {
+		var c SeqCase
+		if f := vk.Decode(raw, &c); f != nil {
+			return f
+		}
+		return checkSeq(r, c)
 	})
 	return r
 }
@@ -1032,6 +1474,14 @@ var regressions = []Case{
 	{Sig: Sig{Fixed: []string{"any"}, Map: "hmap", HC: "iface", Res: "(T,nil)", RT: "string"}, Args: []string{"array"}, Wrap: 1, Block: true},
 	{Sig: Sig{Fixed: []string{"string"}, Map: "map", HC: "struct", Res: "(T,err)", RT: "int"}, Args: []string{"str"}, Block: true},
 	{Sig: Sig{Map: "map", HC: "iface", Res: "(T)", RT: "any"}, Args: []string{"nil", "nil"}},
+}
+
+// hand-picked sequences: the second function needs something the first does not
+var seqRegressions = []SeqCase{
+	{Sigs: []Sig{{Fixed: []string{"string"}, Res: "(T)", RT: "string"}, {Fixed: []string{"string"}, Map: "map", HC: "struct", Res: "(T)", RT: "string"}}, Args: []string{"str"}, Wrap: 1, Block: true, Mode: "loop"},
+	{Sigs: []Sig{{Fixed: []string{"string"}, Res: "(T)", RT: "string"}, {Fixed: []string{"ptr"}, Res: "(T)", RT: "string"}}, Args: []string{"nil"}, Mode: "let"},
+	{Sigs: []Sig{{Fixed: []string{"any"}, Res: "(T)", RT: "string"}, {Fixed: []string{"int"}, Res: "(T)", RT: "string"}, {Var: "any", Res: "(T)", RT: "string"}}, Args: []string{"str"}, Wrap: 1, Mode: "ufn"},
+	{Sigs: []Sig{{Var: "any", Res: "(T)", RT: "string"}, {Fixed: []string{"int"}, HC: "iface", Res: "(T,nil)", RT: "int"}}, Args: []string{"int"}, Block: true, Mode: "loop"},
 }
 
 func TestProp(t *testing.T) {
@@ -1052,7 +1502,8 @@ func TestProp(t *testing.T) {
 	run(fmt.Sprintf("E2 arity matrix: 0-3 fixed parameters (%d type rotations) x 12 tails x 12 result shapes x 0..N+1 well-typed arguments x block x wrapped/unwrapped", rots), arityMatrix(rots))
 
 	p := newProduct(2, r.Pick(2, 3))
-	r.Subspace(fmt.Sprintf("E3 product: %d signatures (<= %d fixed parameters x 12 tails) x %d calls (<= %d arguments of 18 kinds) x block; wrapped except every third", len(p.sigs), 2, p.calls, p.maxN), p.size(), true)
+	p.both = r.Thorough()
+	r.Subspace(fmt.Sprintf("E3 product: %d signatures (<= %d fixed parameters x 12 tails) x %d calls (<= %d arguments of 18 kinds), block: %s; wrapped except every third", len(p.sigs), 2, p.calls, p.maxN, map[bool]string{true: "both", false: "alternating with the index"}[p.both]), p.size(), true)
 	r.Parallel(p.size(), 0, func(i int64) { r.Check(checkCase(r, p.at(i))) })
 
 	fit := map[string][]string{}
@@ -1066,4 +1517,22 @@ func TestProp(t *testing.T) {
 		fit[name] = fittingKinds(ty)
 	}
 	r.Rapid("random", r.Pick(6000, 60000), func(t *rapid.T) *vk.Fail { return checkCase(r, genCase(t, fit)) })
+
+	// one call site executed for several functions of different signatures within one render
+	for _, sc := range seqRegressions {
+		r.Check(checkSeq(r, sc))
+	}
+	var sp *seqProduct
+	if r.Quick() {
+		sp = newSeqProduct([]string{"string", "any", "ptr"}, []string{"str", "int", "nil", "hash", "cvPtr", "cvHMap"}, 2, 1)
+	} else {
+		sp = newSeqProduct(fixedNames, []string{"str", "int", "float", "nil", "hash", "array", "cvPtr", "cvNilPtr", "cvHMap", "cvMyStr"}, 2, 2)
+	}
+	r.Subspace(fmt.Sprintf("S1 one call site, two functions: %d x %d ordered signature pairs (<= 1 fixed parameter of %d types x 12 tails) x %d calls (<= %d arguments of %d kinds) x block (%d); modes loop/let/ufn and wrapped/unwrapped by index",
+		len(sp.sigs), len(sp.sigs), (len(sp.sigs)/12)-1, sp.calls, sp.maxN, len(sp.kinds), sp.blocks), sp.size(), true)
+	r.Parallel(sp.size(), 0, func(i int64) { r.Check(checkSeq(r, sp.at(i))) })
+	sa := seqArity(r.Pick(1, 2))
+	r.Subspace(fmt.Sprintf("S2 one call site, two functions: ordered pairs of signatures (0-%d fixed x 12 tails x 4 result shapes) x well-typed argument lists for either member; modes, block, wrapping by index", r.Pick(1, 2)), int64(len(sa)), true)
+	r.Parallel(int64(len(sa)), 0, func(i int64) { r.Check(checkSeq(r, sa[i])) })
+	r.Rapid("sequences", r.Pick(6000, 60000), func(t *rapid.T) *vk.Fail { return checkSeq(r, genSeq(t, fit)) })
 }
